@@ -8,7 +8,7 @@ def run(v, tier, seed, g):
     try:
         restore = tr_jit.generate()
     except tr_jit.TranslationError:
-        restore = True      # the gate has recorded the failed translation; the schedules below are the search for a failing input
+        restore = (True, True)      # the gate has recorded the failed translation; the schedules below are the search for a failing input
     n = 120 if tier == "quick" else 3000
     specs = jitconf.schedules(seed, n, faults=False, kills=False)
     runs, errs = jitconf.run_real(specs)
@@ -21,7 +21,6 @@ def run(v, tier, seed, g):
         model = []
         v.oblige(False)
         v.violation("coq-model", str(e), {}, no_input=True)
-    jitconf.compare(v, runs, model, "C14")
     # the property itself on the real runs: one compile, nobody loads a partial module, everyone returns
     nontriv = set()
     for r in runs:
@@ -38,6 +37,8 @@ def run(v, tier, seed, g):
                         {"schedule": r["spec"], "events": [jitconf.ev(e) for e in r["events"]], "outcomes": r["outcomes"], "fs": r["fs"], "compiles": r.get("real_compiles"), "errors": r.get("errors")})
         elif len(v.samples) < 3:
             v.samples.append({"events": [jitconf.ev(e) for e in r["events"]][:40], "outcomes": r["outcomes"], "fs": r["fs"]})
+    # the property on the real runs is reported first (concrete schedules); then the conformance with the model
+    jitconf.compare(v, runs, model, "C14")
     for m_, r in zip(model, runs):
         v.oblige(m_["compiles"] <= 1)
         if m_["compiles"] > 1:
@@ -46,7 +47,7 @@ def run(v, tier, seed, g):
         v.violation("gate", "proof obligations no longer check: " + "; ".join(g["broken"]), {"broken": g["broken"]}, no_input=True)
     cov = {"checker_cmd": f"./check C14 --tier {tier}",
            "trusted_base": ["Coq kernel + VM", "hand model Jit.v of the file-system protocol of jit.py (tied by trace conformance under harness/jitsched.py)",
-                            "POSIX: open(...,'x') is exclusive, rename is atomic, a complete file loads (dlopen) — the loader is replaced by a content check in the scheduled runs",
+                            "POSIX: open(...,'x') is exclusive, rename / replace is atomic, a complete file loads (dlopen) — the loader is replaced by a content check in the scheduled runs",
                             "wall-clock liveness (timeouts) is modelled as a poll counter", "tr_jit.py"],
            "states": len(nontriv), "transitions": sum(len(r["events"]) for r in runs), "traces_validated_against_impl": len(runs),
            "evaluations": len(runs), "distinct_nontrivial": len(nontriv),
